@@ -4,6 +4,7 @@ Property theorems over the stream machine of `Model.lean` (all op sequences, eve
 -/
 import TornadoModel.C11.Contract3
 import TornadoModel.C11.StdR
+import TornadoModel.C11.Arrival4
 namespace TornadoModel.C11
 variable (R : Nat → Bytes → Option Nat)
 
@@ -204,14 +205,73 @@ example : ((run stdR (init 4 100) [.readUntil [10] (some 3), .feed [97, 98, 99, 
            (run stdR (init 4 100) [.readUntil [10] (some 3), .feed [97, 98, 99, 100]]).1.buf) =
     (true, ErrK.unsat, [97, 98, 99, 100]) := by decide
 
-/-- stretch (tie-only): the results of a request sequence depend only on the byte stream, not on how the
-    stream is cut into arrivals.  Needs prefix-stability of the regex engine (`R id b = some e → R id (b ++ c) = some e`). -/
+/-! ### arrival independence -/
+
+/-- the statement first put down for arrival independence (kept verbatim): ANY op list without feeds after the feeds,
+    only prefix-stability of the regex engine assumed.  It is FALSE (`arrival_independent_refuted`): a partial read
+    returns whatever the first transport read delivered. -/
 def arrival_independent_goal : Prop :=
   ∀ (R : Nat → Bytes → Option Nat), (∀ id b c e, R id b = some e → R id (b ++ c) = some e) →
   ∀ (c m : Nat) (segs1 segs2 : List Bytes) (reads : List Op), segs1.flatten = segs2.flatten →
     (∀ op ∈ reads, fed op = []) →
     evBytes (runEvs (run R (init c m) (segs1.map .feed ++ reads)).2) =
     evBytes (runEvs (run R (init c m) (segs2.map .feed ++ reads)).2)
+
+/-- witness: the stream `1 2 3 4` delivered as `[1],[2,3,4]` or as `[1,2,3,4]`, then `read_bytes(4, partial=True)`:
+    the first run returns `1`, the second `1 2 3 4`.  Inherent to partial reads (they return what has arrived), not
+    a defect of the code. -/
+theorem arrival_independent_refuted : ¬ arrival_independent_goal := by
+  intro h
+  have := h (fun _ _ => none) (by intro id b c e he; simp at he) 100 100 [[1], [2, 3, 4]] [[1, 2, 3, 4]]
+    [.readBytes 4 true] rfl (by intro op hop; simp at hop; subst hop; rfl)
+  revert this
+  decide
+
+/-- **arrival_batch** (machine = strict batch reader).  Scheduling assumption: the whole byte stream is in the
+    transport (in ANY segmentation `segs`, including 1-byte deliveries and empty segments) before the first request
+    is issued, no handler/close callback is registered, and the requests are issued back to back — each one when the
+    previous call has returned (a request issued while another is pending is rejected, as in the code).  Requests:
+    `read_bytes(n)` (NOT partial), `read_until`, `read_until_regex`, with or without `max_bytes` (`stableRead`).
+    Side conditions: `read_chunk_size > 0`, the stream fits `max_buffer_size`, and `batch ≠ none`: no request runs
+    into `max_bytes` (when UnsatisfiableReadError is noticed depends on the arrivals).  Regex engine: any `R` that is
+    prefix-stable and local.  Then the list of results is exactly `batch R stream reads` — a function of the byte
+    stream and the request sequence alone. -/
+theorem arrival_batch (hS : RStable R) (hL : RLocal R) (c m : Nat) (hc : 0 < c) (segs : List Bytes)
+    (hm : segs.flatten.length ≤ m) (reads : List Op) (hst : ∀ op ∈ reads, stableRead op = true)
+    (results : List Bytes) (hb : batch R segs.flatten reads = some results) :
+    (dataEvs (runEvs (run R (init c m) (segs.map .feed ++ reads)).2)).map (·.2) = results.map .bytes :=
+  feeds_reads_batch R hS hL c m hc (init c m)
+    ⟨rfl, rfl, rfl, rfl, rfl, by simp [init], rfl, rfl, rfl, rfl, init_inv c m⟩ segs hm reads hst results hb
+
+/-- **arrival_independent_partial**: the strongest true version of `arrival_independent_goal` — two segmentations of
+    the same byte stream give the same results, result by result (and hence the same concatenation), for stable
+    (non-partial) requests under the assumptions of `arrival_batch` -/
+theorem arrival_independent_partial :
+    ∀ (R : Nat → Bytes → Option Nat), (∀ id b c e, R id b = some e → R id (b ++ c) = some e) → RLocal R →
+    ∀ (c m : Nat) (segs1 segs2 : List Bytes) (reads : List Op), segs1.flatten = segs2.flatten →
+      0 < c → segs1.flatten.length ≤ m → (∀ op ∈ reads, stableRead op = true) →
+      (batch R segs1.flatten reads).isSome = true →
+      (dataEvs (runEvs (run R (init c m) (segs1.map .feed ++ reads)).2)).map (·.2) =
+        (dataEvs (runEvs (run R (init c m) (segs2.map .feed ++ reads)).2)).map (·.2) ∧
+      evBytes (runEvs (run R (init c m) (segs1.map .feed ++ reads)).2) =
+        evBytes (runEvs (run R (init c m) (segs2.map .feed ++ reads)).2) := by
+  intro R hS hL c m segs1 segs2 reads hseg hc hm hst hb
+  cases hres : batch R segs1.flatten reads with
+  | none => rw [hres] at hb; simp at hb
+  | some results =>
+    have h1 := arrival_batch R hS hL c m hc segs1 hm reads hst results hres
+    have h2 := arrival_batch R hS hL c m hc segs2 (hseg ▸ hm) reads hst results (hseg ▸ hres)
+    refine ⟨h1.trans h2.symm, ?_⟩
+    rw [evBytes_dataEvs, evBytes_dataEvs, h1, h2]
+
+-- non-vacuity: the engine of the tie meets both hypotheses; a delimiter read with max_bytes, a fixed-size read and a
+-- regex read over a stream cut in two ways
+example : RStable stdR ∧ RLocal stdR := ⟨stdR_stable, stdR_local⟩
+example : batch stdR [97, 13, 10, 98, 99, 49, 50, 120, 100] [.readUntil [13, 10] (some 5), .readBytes 2 false,
+            .readRegex 1 none, .readBytes 5 false] = some [[97, 13, 10], [98, 99], [49, 50, 120]] := by decide
+example : (dataEvs (runEvs (run stdR (init 2 100) (([[97], [13], [10, 98, 99, 49], [], [50, 120, 100]] : List Bytes).map .feed ++
+            [.readUntil [13, 10] (some 5), .readBytes 2 false, .readRegex 1 none, .readBytes 5 false])).2)).map (·.2) =
+    [.bytes [97, 13, 10], .bytes [98, 99], .bytes [49, 50, 120]] := by decide
 
 /-! ### the contracts in `Spec.contractOk` form, on the returned bytes themselves -/
 
